@@ -1173,6 +1173,8 @@ def _int(ex, st, args, kwargs, node):
     if is_sym(v):
         if z3.is_int(v):
             return v
+        if z3.is_bool(v):
+            return z3.If(v, z3.IntVal(1), z3.IntVal(0))
         # truncation toward zero; named by a fresh constant so that the (non-linear) argument is not copied into
         # every term that later depends on the result
         k = ex.c.fresh('int', INT)
